@@ -173,9 +173,11 @@ Example C07_cq_nonvacuous :
 Proof.
   split.
   - destruct witness1_values as (ar & s & H & _ & A & B & C & _ & D & _ & E & _).
-    exists ar, s. repeat split; auto. apply exec_reach; [exact W1_wf|]. eapply path_leaf, replay_ar_path; eauto.
+    exists ar, s. split; [exact H|]. split; [|repeat split; assumption].
+    apply exec_reach; [exact W1_wf|]. exact (path_leaf _ _ _ (replay_ar_path (exec W1) (repeat 0 11) ar s H)).
   - destruct witness2_values as (ar & s & H & _ & A & B & _ & C).
-    exists ar, s. repeat split; auto. apply exec_reach; [repeat split|]. eapply path_leaf, replay_ar_path; eauto.
+    exists ar, s. split; [exact H|]. split; [|repeat split; assumption].
+    apply exec_reach; [exact W2_wf|]. exact (path_leaf _ _ _ (replay_ar_path (exec W2) (repeat 1 7) ar s H)).
 Qed.
 
 Print Assumptions C07_cq_weight_conserved.
